@@ -100,10 +100,15 @@ pub fn run(outdir: &str, seed: u64, thorough: bool) -> serde_json::Value {
         let st_ty = DataType::structured(COLS.iter().zip(tys.iter()).map(|(c, t)| (*c, to_dt(t))).collect::<Vec<_>>());
         fn gen_q(r: &mut Rng, tys: &[Ty], depth: u32) -> Expr {
             let col = |r: &mut Rng| Expr::col(COLS[r.below(3) as usize]);
+            let _ = &col;
             let lit = |r: &mut Rng, t: &Ty| -> Expr { match t { Ty::Opt(x) => match &**x { Ty::Text(_) => Expr::val(r.pick(&["a", "B", "abc", "1"]).to_string()), Ty::Bool(_) => Expr::val(r.chance(1, 2)), Ty::Float(_) => Expr::val((r.range(-20, 20) as f64) / 2.0), _ => Expr::val(r.range(-10, 10)) },
                 Ty::Text(_) => Expr::val(r.pick(&["a", "B", "abc", "1"]).to_string()), Ty::Bool(_) => Expr::val(r.chance(1, 2)), Ty::Float(_) => Expr::val((r.range(-20, 20) as f64) / 2.0), _ => Expr::val(r.range(-10, 10)) } };
             match r.below(if depth == 0 { 5 } else { 8 }) {
-                0..=2 => { let i = r.below(3) as usize; let (l, rr) = (Expr::col(COLS[i]), if r.chance(1, 4) { col(r) } else { lit(r, &tys[i]) }); let (l, rr) = if r.chance(1, 2) { (l, rr) } else { (rr, l) };
+                0..=2 => { let i = r.below(3) as usize;
+                    // column against column only between columns of the same kind (a comparison of a text with a boolean column is not well-typed SQL)
+                    let kind = |t: &Ty| -> u8 { let t = if let Ty::Opt(x) = t { &**x } else { t }; match t { Ty::Int(_) | Ty::Float(_) => 0, Ty::Text(_) => 1, Ty::Bool(_) => 2, _ => 3 } };
+                    let same: Vec<usize> = (0..3).filter(|j| *j != i && kind(&tys[*j]) == kind(&tys[i])).collect();
+                    let (l, rr) = (Expr::col(COLS[i]), if r.chance(1, 4) && !same.is_empty() { Expr::col(COLS[*r.pick(&same)]) } else { lit(r, &tys[i]) }); let (l, rr) = if r.chance(1, 2) { (l, rr) } else { (rr, l) };
                     match r.below(5) { 0 => Expr::gt(l, rr), 1 => Expr::gt_eq(l, rr), 2 => Expr::lt(l, rr), 3 => Expr::lt_eq(l, rr), _ => Expr::eq(l, rr) } }
                 3 => { let i = r.below(3) as usize; let vals: Vec<Expr> = (0..r.range(1, 3)).map(|_| lit(r, &tys[i])).collect();
                     match &vals[0] { Expr::Value(Value::Integer(_)) => Expr::in_list(Expr::col(COLS[i]), Expr::list(vals.iter().filter_map(|v| if let Expr::Value(Value::Integer(x)) = v { Some(**x) } else { None }).collect::<Vec<i64>>())),
